@@ -137,7 +137,7 @@ func TestC02(t *testing.T) {
 	rec.Rule("valid sealed tuples (C03 generator); per tuple: positive control, then single-bit flips of the ClientHello message body (quick: 96 sampled bits; thorough: every bit), header flips (tolerant), and the substitutions wrong key (same/other id), wrong info (config differing in public name / suites / id with the same private key; concatenation of two held configs of the same id), suite named != suite used, wrong config id, enc/payload truncated/extended/swapped, AAD over a different session id, and length-consistent structural alterations (bytes appended inside the ECH extension, extension added/removed/grown/swapped, cipher suite, session id, compression method changed). In a third of the cases one or two keys with unparseable configs are inserted into the server's key list for the negative checks. Oracle: never accepted; fall-back byte-exact when the mutated message is still well-formed. distinct = (hello hash, mutation); every mutation is non-trivial")
 	rec.Mandatory("flip:random", "flip:session_id", "flip:cipher_suites", "flip:ext_header", "flip:sni_body", "flip:ech_suite", "flip:ech_config_id", "flip:ech_enc", "flip:ech_payload", "flip:versions_body",
 		"sub:wrong_key_same_id", "sub:wrong_key_other_id", "sub:wrong_info_public_name", "sub:wrong_info_suites", "sub:suite_mismatch", "sub:wrong_config_id", "sub:enc_truncated", "sub:payload_truncated", "sub:payload_extended", "sub:payload_swapped", "sub:aad_other_sid", "sub:suite_not_offered", "sub:wrong_config_id_sealed", "sub:wrong_info_concatenated_configs", "unparseable_key_configs_in_list",
-		"struct:ech_ext_trailing_bytes", "struct:extension_added", "struct:extensions_swapped", "struct:extension_removed", "struct:extension_grown", "struct:cipher_suite_appended", "struct:session_id_changed", "struct:compression_appended")
+		"struct:ech_ext_trailing_bytes", "struct:extension_added", "struct:extensions_swapped", "struct:extension_removed", "struct:extension_grown", "struct:cipher_suite_appended", "struct:session_id_changed", "struct:compression_appended", "struct:bytes_after_extensions", "struct:bytes_after_message")
 	rapid.Check(t, func(t *rapid.T) {
 		sc := drawSealed(t, false)
 		hh := sha256.Sum256(sc.OuterMsg)
@@ -480,6 +480,22 @@ func TestC02(t *testing.T) {
 				o.Exts[gr].Data = append(append([]byte{}, o.Exts[gr].Data...), 0)
 				return true
 			})
+		}
+		// bytes after the extensions block, inside the ClientHello message (handshake length
+		// adjusted) or after the message inside the record
+		{
+			k := rapid.IntRange(1, 4).Draw(t, "trailing_after_exts")
+			junk := hello.GenBytes(t, "trailing_junk", k)
+			m := append(append([]byte{}, sc.OuterMsg...), junk...)
+			n := len(m) - 4
+			m[1], m[2], m[3] = byte(n>>16), byte(n>>8), byte(n)
+			if len(m) <= 16384 {
+				one("struct:bytes_after_extensions", fmt.Sprintf("%d bytes appended after the extensions block inside the ClientHello message", k), hello.Record(22, sc.RecVer, m))
+			}
+			m2 := append(append([]byte{}, sc.OuterMsg...), junk...)
+			if len(m2) <= 16384 {
+				one("struct:bytes_after_message", fmt.Sprintf("%d bytes appended after the ClientHello message inside its record", k), hello.Record(22, sc.RecVer, m2))
+			}
 		}
 		alt("struct:cipher_suite_appended", "a cipher suite appended to the list", func(o *hello.Hello) bool {
 			o.Suites = append(append([]byte{}, o.Suites...), 0x13, 0x01)
